@@ -120,6 +120,9 @@ type exchange struct {
 	backendURL                             *url.URL
 	mu                                     sync.Mutex
 	cbs                                    []int64
+	cbURLs                                 []string
+	rewrite                                bool // the handler behind the state listener replaces req.URL (a re-routing handler)
+	connHdr                                string
 	rtCalled                               bool
 	rtErr                                  error
 	proxyStatus                            int
@@ -203,6 +206,7 @@ func getEnv() *env {
 		record := func(u *url.URL, state int) {
 			if x := e.current(); x != nil {
 				x.mu.Lock()
+				x.cbURLs = append(x.cbURLs, u.String())
 				switch state {
 				case forward.StateConnected:
 					x.cbs = append(x.cbs, 1)
@@ -218,7 +222,16 @@ func getEnv() *env {
 			fwd := forward.New(true)
 			fwd.ErrorLog = log.New(io.Discard, "", 0)
 			fwd.Transport = &recTransport{e: e, rt: &http.Transport{ResponseHeaderTimeout: timeout, DisableCompression: true, DisableKeepAlives: true}}
-			return forward.NewStateListener(fwd, record)
+			// between the listener and the forwarder: a handler that may re-route by replacing req.URL in place
+			reroute := http.HandlerFunc(func(w http.ResponseWriter, r *http.Request) {
+				if x := e.current(); x != nil && x.rewrite {
+					u := *r.URL
+					u.Path = "/rerouted" + u.Path
+					r.URL = &u
+				}
+				fwd.ServeHTTP(w, r)
+			})
+			return forward.NewStateListener(reroute, record)
 		}
 		e.listener = mk(20 * time.Second)
 		e.listenerT = mk(headerTimeout)
@@ -505,6 +518,8 @@ func (c *comp) Run(h *hlib.History) ([]hlib.Mon, bool) {
 				return nil, false
 			}
 			x.body = bodyOf(x.bodyLen, step)
+			x.rewrite = step%2 == 1
+			x.connHdr = connHeaders[step%len(connHeaders)]
 			if x.mode == 1 {
 				x.backendURL = e.deadURL
 			}
@@ -542,6 +557,7 @@ func (c *comp) Run(h *hlib.History) ([]hlib.Mon, bool) {
 				int64(x.proxyStatus), obsClient, hlib.B2i(intact), abort, int64(len(x.cbs))}
 			obs = append(obs, x.cbs...)
 			cbs := append([]int64{}, x.cbs...)
+			cbURLs := append([]string{}, x.cbURLs...)
 			proxyStatus, rtErr := x.proxyStatus, x.rtErr
 			x.mu.Unlock()
 			h.Obs = append(h.Obs, obs)
@@ -554,6 +570,8 @@ func (c *comp) Run(h *hlib.History) ([]hlib.Mon, bool) {
 			}
 			if len(cbs) != 2 || cbs[0] != 1 || cbs[1] != 2 {
 				hit("mode %d: state-listener calls %v, want [1 2] (connected, disconnected)", x.mode, cbs)
+			} else if len(cbURLs) == 2 && cbURLs[0] != cbURLs[1] {
+				hit("mode %d: 'connected' was reported for %s but 'disconnected' for %s (the handler re-routed the request in between): not a pair", x.mode, cbURLs[0], cbURLs[1])
 			}
 			switch x.mode {
 			case 0:
@@ -722,7 +740,7 @@ func (e *env) client(x *exchange) (status int, body []byte, hdr http.Header, err
 	}
 	defer conn.Close()
 	_ = conn.SetDeadline(time.Now().Add(8 * time.Second))
-	if _, err = io.WriteString(conn, "GET /x HTTP/1.1\r\nHost: example.com\r\n\r\n"); err != nil {
+	if _, err = io.WriteString(conn, "GET /x HTTP/1.1\r\nHost: example.com\r\n"+x.connHdr+"\r\n"); err != nil {
 		return 0, nil, nil, err
 	}
 	if x.mode == 5 {
@@ -737,6 +755,10 @@ func (e *env) client(x *exchange) (status int, body []byte, hdr http.Header, err
 	resp.Body.Close()
 	return resp.StatusCode, body, resp.Header, err
 }
+
+// Connection header lines of the client's request, including list syntax with empty elements (RFC 9110 5.6.1: recipients
+// must tolerate them)
+var connHeaders = []string{"", "Connection: keep-alive,\r\n", "Connection: \r\n", "Connection: close, , x-hop\r\nX-Hop: 1\r\n", "Connection: ,keep-alive\r\n", "Connection: ,\r\n"}
 
 var modeNames = []string{"normal", "refused", "reset-before-head", "close-before-head", "header-timeout", "client-cancel", "truncated-body", "head-cut", "reset-after-head", "request-deadline"}
 
